@@ -267,7 +267,7 @@ func cmdCheck(args []string) int {
 			return hashStr(ha) < hashStr(hb)
 		})
 		seenWL := map[string]bool{}
-		maxW := 3
+		maxW := 5
 		if *tier == "thorough" {
 			maxW = 1000
 		}
